@@ -73,6 +73,8 @@ def gen(rng, knobs):
                                  created_at=T0 - 1))
         rng.shuffle(writes)
         h.ops.append(["csub", [{"kinds": [9999]}], writes])
+    for _ in range(rng.choice([0, 0, 1])):
+        h.ops.insert(rng.randint(0, len(h.ops)), ["restart"])          # the relay restarts somewhere in the history
     return {"backend": backend, "ops": h.ops}
 
 
@@ -191,6 +193,8 @@ def run(case, sim):
     from nostr_relay.config import Config
     max_limit = type(Config).max_limit
     viol, probes, sigs, nontrivial = check(obs, backend, max_limit)
+    from .. import oracles
+    viol += oracles.restart_changes(obs, backend)
     seen, v2 = set(), []
     for v in viol:
         if v["sig"] not in seen:
